@@ -1862,7 +1862,10 @@ def _t2(ctx: Context) -> None:
                 # success entry of a read: the value must come from this result
                 vs = [v for k, v in val[1] if k == ("const", "value")] if val[0] == "dict" else []
                 for v in vs:
-                    srcs_ok = all(contains(a, lambda s: s == RESULT) or contains(a, lambda s: s == KEYBASE) for a in _alts(v))
+                    al = _alts(v)
+                    from_result = [a for a in al if contains(a, lambda s: s == RESULT) or contains(a, lambda s: s == KEYBASE)]
+                    # a constant empty value next to decoded ones is the `empty result` case of a conditional assignment
+                    srcs_ok = bool(from_result) and all(a in from_result or a in (("const", b""), ("const", None)) for a in al)
                     ck.check(R, srcs_ok, f"{f.name}: the value stored for ids[i] is decoded from result i", f"{ctx.fkey(f)}:value-source",
                              f"{f.name}: the stored value {show(v, 100)} does not come from the i-th result", ctx.loc(f, n))
         # an error item is always recorded
